@@ -15,6 +15,12 @@ so the served body identifies the served file):
     T/up/root/f.txt  T/up/root/sub/f.txt  T/up/root/rootx/f.txt  T/up/root/up/f.txt  T/up/root/root/f.txt
     T/up/root/..\\f.txt                       (a POSIX file whose NAME contains a backslash; it is inside)
     T/<absolute path of R>/f.txt             (only in 'replica' cases: outside R, but its path CONTAINS R's absolute path)
+    T/up/pub\\/f.txt  T/up/pub\\/sub/f.txt    a root directory whose NAME ends with a backslash (POSIX: part of the name) ...
+    T/up/pub/f.txt  T/up/pub/decoy.txt  T/up/pub/sub/f.txt   ... and its sibling named without it (decoys, outside that root)
+    T/up/~/f.txt  T/up/~/sub/f.txt           a root directory literally named '~' (given relative: '~', '~/', '~//', './~');
+    T/up/~x/f.txt  T/up/decoy.txt             for these roots $HOME is pointed at a directory of the tree holding decoys
+                                             (T/up, T/up/rootx or T) while the case runs and restored afterwards: the root
+                                             is the directory AS GIVEN (seen from the cwd), never $HOME
 
 Oracle (written from the statement, POSIX lexical normalisation, no os.path): R = norm(root seen from the
 cwd); the location of name n is L = norm(R + '/' + n) (also accepted: the same with the leading / trailing
@@ -48,15 +54,25 @@ BOUND = ('names = prefix x (<=3 (quick) / <=4 (thorough) navigation segments ove
          'root/. from T/up, "." "" "./" from R, ".." "../" from R/sub, up/root from T ; the prefix-sibling T/up/roo ; '
          'a root that does not exist ; a root that is a file} over a real tree with decoys beside and above the root; '
          'every open() during the request recorded by an audit hook; seeded random names (thorough: 20000) over the same alphabet '
-         'with per-joint random separators')
+         'with per-joint random separators; plus odd-named roots: a directory named "pub\\" (trailing backslash in the NAME) with a '
+         'sibling "pub" holding decoys, spelt {abs, abs/, abs//, pub\\, pub\\/, ./pub\\ from T/up, "." from inside, up/pub\\ from T}, and a '
+         'directory named "~" spelt {~, ~/, ~//, ./~, ~/., ~/sub, ~/sub/.. from T/up, abs, abs/, up/~ from T, "." from inside; a sibling "~x" spelt '
+         '~x, ~x/} with HOME pointed at a directory of the tree holding decoys (T/up, T/up/rootx or T) for the case and restored (24 '
+         '(root, cwd, HOME) triples, own tree with these directories); x (quick) the plain / dot-dot / special names incl. decoy.txt, '
+         '../pub/f.txt, ../~x/f.txt (about 700 names), (thorough) all enumerated names of up to 3 navigation segments; 480 (quick) / 4800 seeded random names over '
+         'these roots')
 NONTRIVIAL_RULE = ('distinct (root spelling, cwd, name); non-trivial = under POSIX or backslash-as-separator reading the name '
                    'denotes an existing file or directory of the tree other than a plain child path (i.e. a wrong decision '
                    'would be observable), or the name is absolute / contains NUL')
 
 # ------------------------------------------------------------------ the tree (paths relative to T)
 DIRS = ['up', 'up/root', 'up/root/sub', 'up/root/rootx', 'up/root/up', 'up/root/root', 'up/rootx', 'up/roo']
+# only in the cases of the odd-named roots (case['odd']):
+DIRS_ODD = ['up/pub\\', 'up/pub\\/sub', 'up/pub', 'up/pub/sub', 'up/~', 'up/~/sub', 'up/~x', 'up/rootx/sub']
 FILES = ['f.txt', 'up/f.txt', 'up/root.txt', 'up/rootx/f.txt', 'up/roo/f.txt', 'up/root/f.txt', 'up/root/sub/f.txt',
          'up/root/rootx/f.txt', 'up/root/up/f.txt', 'up/root/root/f.txt', 'up/root/..\\f.txt']
+FILES_ODD = ['up/pub\\/f.txt', 'up/pub\\/sub/f.txt', 'up/pub/f.txt', 'up/pub/decoy.txt', 'up/pub/sub/f.txt',
+         'up/~/f.txt', 'up/~/sub/f.txt', 'up/~x/f.txt', 'up/decoy.txt', 'decoy.txt', 'up/rootx/decoy.txt', 'up/rootx/sub/f.txt']
 WATCH = ('/etc/passwd', '/etc/hostname')
 
 
@@ -74,6 +90,21 @@ ROOTS_MORE = [
     ('./root', '{UP}'), ('root/.', '{UP}'), ('', '{R}'), ('./', '{R}'), ('../', '{R}/sub'), ('up/root', '{T}'),
     ('{UP}/nope', None), ('{UP}/root.txt', None), ('roo/', '{UP}'),
 ]
+# odd-named root directories: (root spelling, cwd, HOME while the case runs)
+ROOTS_ODD = [
+    ('{UP}/pub\\', None, None), ('{UP}/pub\\/', None, None), ('{UP}/pub\\//', None, None), ('pub\\', '{UP}', None),
+    ('pub\\/', '{UP}', None), ('./pub\\', '{UP}', None), ('.', '{UP}/pub\\', None), ('up/pub\\', '{T}', None),
+    ('{UP}/pub\\/sub/..', None, None),
+    ('~', '{UP}', '{UP}'), ('~/', '{UP}', '{UP}'), ('~//', '{UP}', '{UP}'), ('~', '{UP}', '{UP}/rootx'), ('~/', '{UP}', '{T}'),
+    ('~/sub', '{UP}', '{UP}/rootx'), ('./~', '{UP}', '{UP}'), ('~/.', '{UP}', '{UP}/rootx'), ('~/sub/..', '{UP}', '{UP}'),
+    ('{UP}/~', None, '{UP}'), ('{UP}/~/', None, '{T}'), ('up/~', '{T}', '{UP}'), ('.', '{UP}/~', '{UP}'),
+    ('~x', '{UP}', '{UP}'), ('~x/', '{UP}', '{UP}/rootx'),
+]
+ODD_NAMES = ['f.txt', 'sub/f.txt', 'decoy.txt', 'sub//f.txt', './f.txt', 'sub/../f.txt', 'sub/../decoy.txt', '../pub/f.txt',
+             '../pub/decoy.txt', '../pub\\/f.txt', '../~x/f.txt', '../~/f.txt', '../~/../decoy.txt', '/decoy.txt', '\\decoy.txt',
+             '//decoy.txt', '..\\decoy.txt', '{UP}/pub/decoy.txt', '{UP}/pub/f.txt', '{UP}/pub\\/f.txt', '{UP}/decoy.txt',
+             '{UP}/~x/f.txt', '{UP}/~/f.txt', '{UP}/rootx/decoy.txt', 'sub/../../pub/decoy.txt', 'sub/../../~x/f.txt', '~', '~/',
+             '~/decoy.txt', '~/~/f.txt', 'pub\\', '../pub\\', '../pub', '../pub/', '../pub/sub/f.txt', 'sub/../../pub/sub/f.txt']
 NAV = ['.', '..', '', 'sub', 'root', 'rootx', 'up']
 LEAVES = ['f.txt', 'root.txt', 'nofile', '', '..']
 STYLES = ['/', '//', '\\', 'alt']
@@ -111,7 +142,7 @@ def special_names():
         out.append('/'.join(ups + ['up', 'root', 'f.txt']))
         out.append('/'.join(ups + ['rootx', 'f.txt']))
         out.append('/'.join(ups + ['root.txt']))
-    return out
+    return out + ODD_NAMES
 
 
 BATCH = {'quick': 48, 'thorough': 96}   # names served per tree (a case = one tree + one batch of names)
@@ -129,7 +160,10 @@ def gen_cases(tier, seed):
         navs.extend(itertools.product(NAV, repeat=k))
     names = []
     seen = set()
+    upto3 = None
     for nav in navs:
+        if len(nav) == 4 and upto3 is None:
+            upto3 = len(names)
         for leaf in LEAVES:
             segs = list(nav) + [leaf]
             for style in STYLES:
@@ -168,6 +202,34 @@ def gen_cases(tier, seed):
         for b in batches(root, cwd, rep):
             b['replica'] = 1
             yield b
+    # odd-named roots (a trailing backslash in the directory's NAME; a directory named '~' with HOME elsewhere in the tree)
+    if tier == 'quick':
+        odd = ODD_NAMES + [n for n in names if n.count('..') >= 1 and len(n) <= 16 and '\\' not in n][:300] + special_names()
+        odd = list(dict.fromkeys(odd))
+    else:
+        odd = ODD_NAMES + names[:upto3] + special_names()      # enumerated names up to 3 navigation segments
+        odd = list(dict.fromkeys(odd))
+    for root, cwd, home in ROOTS_ODD:
+        for i in range(0, len(odd), 4 * batch):      # larger batches: the tree of these cases is twice as large
+            b = dict(root=root, cwd=cwd, names=odd[i:i + 4 * batch])
+            b['home'] = home
+            b['odd'] = 1
+            yield b
+    rnd2 = random.Random(seed * 7919 + 16)
+    for _ in range((480 if tier == 'quick' else 4800) // batch):
+        ns = []
+        for _ in range(batch):
+            k = rnd2.randrange(1, 6)
+            segs = [rnd2.choice(['.', '..', '..', '', 'sub', 'pub', 'pub\\', '~', '~x', 'rootx', 'f.txt', 'decoy.txt', '{UP}', '{T}'])
+                    for _ in range(k)]
+            n = rnd2.choice(PREFIXES + ['{UP}/', '{T}/', '~/'])
+            for i, sg in enumerate(segs):
+                n += sg
+                if i < k - 1 or rnd2.random() < 0.2:
+                    n += rnd2.choice(['/', '/', '/', '//', '\\', '/./'])
+            ns.append(n)
+        root, cwd, home = rnd2.choice(ROOTS_ODD)
+        yield dict(root=root, cwd=cwd, names=ns, home=home, odd=1)
     rnd = random.Random(seed)
     allroots = ROOTS_MAIN + ROOTS_MORE
     for _ in range((2000 if tier == 'quick' else 20000) // batch):
@@ -235,7 +297,7 @@ def name_nontrivial(root, cwd, rawname):
         return True
     cwd = subst(cwd, T) if cwd else T
     R = norm(subst(root, T), cwd)
-    known = {T + '/' + f for f in tree_files(T, True)} | {T + '/' + d for d in DIRS} | {T, '/etc/passwd'}
+    known = {T + '/' + f for f in tree_files(T, True, True)} | {T + '/' + d for d in DIRS + DIRS_ODD} | {T, '/etc/passwd'}
     plain = _is_plain(name)
     for v in (name, name.replace('\\', '/')):
         for L in locations(v, R):
@@ -277,21 +339,22 @@ def setup():
     _ensure_hook()
 
 
-def tree_files(T, replica):
+def tree_files(T, replica, odd=False):
     """files of the tree, relative to T; with `replica` the tree also holds T/<absolute path of R>/f.txt
     (a location OUTSIDE the root whose text contains the root's absolute path)"""
+    files = FILES + FILES_ODD if odd else FILES
     if replica:
-        return FILES + [T.lstrip('/') + '/up/root/f.txt']
-    return FILES
+        return files + [T.lstrip('/') + '/up/root/f.txt']
+    return files
 
 
-def build_tree(replica=False):
+def build_tree(replica=False, odd=False):
     T = os.path.realpath(tempfile.mkdtemp(prefix='ombott-verif-c16-', dir='/tmp'))
-    for d in DIRS:
+    for d in (DIRS + DIRS_ODD if odd else DIRS):
         os.mkdir(T + '/' + d)
     if replica:
         os.makedirs(T + T + '/up/root')
-    for f in tree_files(T, replica):
+    for f in tree_files(T, replica, odd):
         with open(T + '/' + f, 'wb') as fh:
             fh.write(content_of(f))
     return T
@@ -306,18 +369,23 @@ def run_case(case):
     _ensure_hook()
     old_cwd = os.getcwd()
     replica = bool(case.get('replica'))
-    T = build_tree(replica)
+    odd = bool(case.get('odd'))
+    T = build_tree(replica, odd)
     old_req = G.request
     extra_trees = []
+    home = case.get('home')
+    old_home = os.environ.get('HOME')
     try:
         root = subst(case['root'], T)
         cwd = subst(case['cwd'], T) if case['cwd'] else T
         if not os.path.isabs(root):
             # a relative root is resolved against the working directory of EACH call: first serve once with the same
             # root string from inside a second, identical tree (whatever that call leaves behind must not matter)
-            T2 = build_tree(replica)
+            T2 = build_tree(replica, odd)
             try:
                 os.chdir(subst(case['cwd'], T2) if case['cwd'] else T2)
+                if home:
+                    os.environ['HOME'] = subst(home, T2)
                 app0 = ombott.Ombott()
                 G.request = app0.request
                 app0.route('/s', callback=lambda: ombott.static_file('f.txt', root=root))
@@ -326,6 +394,8 @@ def run_case(case):
                 os.chdir(old_cwd)
                 extra_trees.append(T2)       # kept until the end of the case: a file opened there is an open outside the root
         os.chdir(cwd)
+        if home:
+            os.environ['HOME'] = subst(home, T)
         for idx, rawname in enumerate(case['names']):
             name = subst(rawname, T)
             opened = []
@@ -345,7 +415,7 @@ def run_case(case):
                 res = serve(app, env)
             finally:
                 _REC = None
-            f = check(name, root, cwd, T, res, opened, seen, replica)
+            f = check(name, root, cwd, T, res, opened, seen, replica, odd)
             if f is not None:
                 f['name'] = rawname
                 f['index'] = idx
@@ -354,13 +424,18 @@ def run_case(case):
         _REC = None
         G.request = old_req
         os.chdir(old_cwd)
+        if home:
+            if old_home is None:
+                os.environ.pop('HOME', None)
+            else:
+                os.environ['HOME'] = old_home
         shutil.rmtree(T, ignore_errors=True)
         for t2 in extra_trees:
             shutil.rmtree(t2, ignore_errors=True)
     return None
 
 
-def check(name, root, cwd, T, res, opened, seen, replica=False):
+def check(name, root, cwd, T, res, opened, seen, replica=False, odd=False):
     R = norm(root, cwd)
     # K1: nothing outside the root is opened
     for p in opened:
@@ -380,7 +455,7 @@ def check(name, root, cwd, T, res, opened, seen, replica=False):
     if res.exc is not None or code not in (200, 403, 404):
         return fail('K2.status', status=res.status, exc=repr(res.exc) if res.exc else None, direct=seen,
                     errors=res.errors[-300:].replace(T, '{T}'))
-    contents = {T + '/' + f: content_of(f) for f in tree_files(T, replica)}
+    contents = {T + '/' + f: content_of(f) for f in tree_files(T, replica, odd)}
     locs = locations(name, R)
     ok_locs = [L for L in locs if inside(L, R) and L in contents]
     if code == 200:
